@@ -452,3 +452,11 @@ def x12(cx: Cx, ob: Ob) -> None:
     from ..rules import package_lints
 
     package_lints(cx, ob, {'api.py', 'resolver_service.py'})
+
+
+@obligation("C17-X20", "expand_pair answers exactly as expand: it funnels into expand_reference with its own flags and adds no lookup rule of its own (shared with C02-D5/D6) - the handlers resolve through expand_pair", floor=3)
+def x20(cx: Cx, ob: Ob) -> None:
+    from .c02 import check_expand_reference, check_expand_wrappers
+
+    check_expand_wrappers(cx, ob)
+    check_expand_reference(cx, ob)
